@@ -57,6 +57,11 @@ Fixpoint c09_list_upd {X : Type} (i : nat) (x : X) (v : list X) : list X :=
 Definition c09_assign_vs_lane_byref {X : Type} (f : X -> X -> X) (d : X) (v : list X) (k : nat) : list X :=
   fold_left (fun w i => c09_list_upd i (f (nth i w d) (nth k w d)) w) (seq 0 (length v)) v.
 
+(* special members (defaulted: those of std::array<T,S>) and the explicit converting constructor LoopSIMD<T,S,A>(const LoopSIMD<T,S,OA>&):
+   (the new object, the source afterwards); the alignment parameter is not part of the value.  swap(v, w): (new v, new w) *)
+Definition c09_copy {X : Type} (v : list X) : list X * list X := (v, v).
+Definition c09_swap {X : Type} (v w : list X) : list X * list X := (w, v).
+
 (* ++v / --v : (value of the expression, new v);  v++ / v-- : (old v, new v) *)
 Definition c09_prefix {X : Type} (f : X -> X) (v : list X) : list X * list X := let r := map f v in (r, r).
 Definition c09_postfix {X : Type} (f : X -> X) (v : list X) : list X * list X := (v, map f v).
@@ -180,7 +185,9 @@ Inductive c09_form : Type :=
 | C09_HMax | C09_HMin | C09_LaneAll | C09_Bcast | C09_ImplCast | C09_MaskOr | C09_MaskAnd
 (* aliasing forms: the scalar operand is (a reference to) lane k of operand a itself, the vector operand is a itself *)
 | C09_AssignVSLane (k : nat) | C09_VSLane (k : nat) | C09_SVLane (k : nat) | C09_VVSelf | C09_AssignVVSelf
-| C09_CondSelf | C09_CondSame | C09_CondMask.
+| C09_CondSelf | C09_CondSame | C09_CondMask
+(* special members and conversions: copy / move / assignment / self-assignment / converting constructor (copy, source), swap, v = v[k] *)
+| C09_Copy | C09_Swap | C09_BcastLane (k : nat) | C09_MaskOrSelf | C09_MaskAndSelf.
 
 (* symbolic cond on terms: the mask lane is itself a term *)
 Fixpoint c09_cond_sym (m a b : list c09_term) : list c09_term :=
@@ -230,6 +237,11 @@ Definition c09_plan (f : c09_form) (op : nat) (S m : nat) : list (list c09_term)
   | C09_CondSelf => [c09_cond_sym a b c]           (* b = cond(m, b, c) *)
   | C09_CondSame => [c09_cond_sym a b b]           (* cond(m, b, b) *)
   | C09_CondMask => [c09_cond_sym b b c]           (* b = cond(b, b, c) for mask types *)
+  | C09_Copy => let r := c09_copy a in [fst r; snd r]
+  | C09_Swap => let r := c09_swap a b in [fst r; snd r]
+  | C09_BcastLane k => [c09_bcast (length a) (nth k a (C09_K false))]
+  | C09_MaskOrSelf => [c09_map2 (c09_app2 c09_op_or) (c09_map (c09_app1 op) a) (c09_map (c09_app1 op) a)]
+  | C09_MaskAndSelf => [c09_map2 (c09_app2 c09_op_and) (c09_map (c09_app1 op) a) (c09_map (c09_app1 op) a)]
   end.
 
 (* ------------------------------------------------------------------------------------------ *)
